@@ -141,7 +141,10 @@ Definition holds (c : case) (o : obs) : list string :=
       (if Nat.eqb (nth0 ob 0) (bn (sock_ok e)) then [] else ["transfer_closes_socket"]) ++
       (if Nat.eqb (nth0 ob 1) (bn (sock_ok e && match hres e with HFile => true | _ => false end)) then []
        else ["transfer_closes_file"]) ++
-      (if Nat.eqb (nth0 ob 2) 1 then [] else ["transfer_thread_ends"])
+      (if Nat.eqb (nth0 ob 2) 1 then [] else ["transfer_thread_ends"]) ++
+      (* no exception escapes the thread except where the model says so (a failing send of the final ERROR
+         packet, a failing size computation) *)
+      (if Nat.eqb (nth0 ob 4) (count_act is_uncaught (run_transfer e)) then [] else ["transfer_thread_ends_cleanly"])
   | _, _ => ["observation_shape"]
   end.
 
